@@ -93,6 +93,27 @@ def run(ctx):
     ctx.rule(dispatch)
     ctx.rule(normalise)
     ctx.rule(shims)
+    ctx.rule(fresh_objects)
+
+
+def fresh_objects(ctx, R="R-C08-dispatch"):
+    """Every resolution of an alias or a configuration builds a new object (unless an instance is passed in, which is returned
+    as it is).  Scaling functions, windows, banks and computers carry public, assignable parameters and streaming state: a
+    memoised factory hands one shared object to every caller, and retuning or using one changes all."""
+    from .c20 import CACHE_DECOS, closure_cache_decorators
+    prog = ctx.prog
+    m = prog.module("alias")
+    what = "resolving an alias or a configuration builds a new object each time (no memo between calls)"
+    n = 0
+    funcs = list(m.functions.values()) + [f for c in m.classes.values() for f in c.methods.values()]
+    for f in funcs:
+        n += 1
+        decos = [d for d in f.decorators if any(c in d for c in CACHE_DECOS)] + ["%s (keeps `%s` in a closure)" % dc for dc in closure_cache_decorators(prog, f)]
+        if decos:
+            ctx.bad(R, f, f.node, "%s is wrapped by %s: whoever resolves the same name or configuration again receives the very same instance, so re-assigning a public "
+                    "parameter of one (order, peak, low_hz, coeff ...) or streaming through one changes what every other user computes" % (f.short, decos), what, robust=True)
+    ctx.floor(R + "/factory-functions", n, 2)
+    ctx.ok(R, "src/pydrobert/speech/alias.py", what, "%d functions of alias.py inspected" % n)
 
 
 # ------------------------------------------------------------------ R-C08-registry
@@ -401,8 +422,10 @@ def dispatch(ctx):
             n_mut += 1
             for d in defs:
                 v_ = getattr(d, "value", None)
-                if isinstance(v_, ast.DictComp) and v_.generators and (v_.generators[0].ifs or len(v_.generators) > 1) and any(
-                        isinstance(x, ast.Name) and x.id == arg for x in ast.walk(v_.generators[0].iter)):
+                comp_ = v_ if isinstance(v_, ast.DictComp) else (
+                    v_.args[0] if (isinstance(v_, ast.Call) and astq.is_name(v_.func, "dict") and len(v_.args) == 1 and isinstance(v_.args[0], (ast.GeneratorExp, ast.ListComp))) else None)
+                if comp_ is not None and comp_.generators and (comp_.generators[0].ifs or len(comp_.generators) > 1) and any(
+                        isinstance(x, ast.Name) and x.id == arg for x in ast.walk(comp_.generators[0].iter)):
                     ctx.bad(R, f, v_, "the working copy of the mapping is built by a filtering comprehension (`%s`): entries that fail the filter (0, False, '', "
                             "empty containers) never reach the constructor, which then uses its defaults" % astq.text(v_)[:90],
                             "every item of the mapping other than the alias key is forwarded as a keyword argument")
